@@ -14,13 +14,65 @@ Theorem validate_sound :
 Proof. exact validate_sound_lemma. Qed.
 Print Assumptions validate_sound.
 
-(* the Python-level validate, too, only accepts values of the declared domain (every trait type with a
-   fast descriptor; corollary of C03's fast_eq_slow) *)
+(* the Python-level validate of EVERY description, too, accepts only values of the declared domain, yields the
+   documented conversion and lets only the value's own protocol exceptions through (proved together with the compiled
+   path by one induction per statement); this is what a settable validated Property(<trait>) runs *)
 Theorem py_validate_sound :
-  forall E d v w, sound_hyp E d = true -> c03_scope d = true -> benign E d v = true ->
-    py_validate E d v = Accept w -> dom E d w = true.
-Proof. exact py_validate_sound_lemma. Qed.
+  forall E d v w, sound_hyp E d = true -> py_validate E d v = Accept w -> dom E d w = true.
+Proof. exact py_validate_sound_direct. Qed.
 Print Assumptions py_validate_sound.
+
+Theorem py_validate_documented_conversion :
+  forall E d v w, wf_desc d = true -> bool_final E = true -> py_validate E d v = Accept w -> conv_ok E d v w = true.
+Proof. exact py_documented_conversion_lemma. Qed.
+Print Assumptions py_validate_documented_conversion.
+
+Theorem py_only_own_protocol_exceptions :
+  forall E d v e, wf_desc d = true -> py_validate E d v = Propagate e -> raises_own v e = true.
+Proof. exact py_own_protocol_lemma. Qed.
+Print Assumptions py_only_own_protocol_exceptions.
+
+(* List(<trait>) as a member description (alone, in Tuple / Either / Union): accepted iff a list within the length
+   bounds whose items are accepted one by one by the item trait; validate_sound / documented conversion / own-protocol
+   exceptions cover it through the same inductions *)
+Theorem list_items_validated :
+  forall E d mn mx v w,
+    validate E (DList d mn mx) v = Accept w <->
+    exists vs ws, v = PList vs /\ w = PList ws /\ mn <= Z.of_nat (length vs) <= mx /\
+                  Forall2 (fun x y => validate E d x = Accept y) vs ws.
+Proof. exact list_items_lemma. Qed.
+Print Assumptions list_items_validated.
+
+(* Range whose bounds are given BY TRAIT NAME (BaseRange._validate): validation reads the instance; an accepted value is
+   int(value), an int within the bounds the two bound attributes hold at that moment, exclusivity honoured at both ends.
+   (validate_s is what setattr runs; for every other description it is validate.) *)
+Theorem dyn_range_in_bounds :
+  forall E c s lo hi mask v w,
+    validate_s E c s (DRangeDyn lo hi mask) v = Accept w ->
+    exists l h z, read c s lo = Some (PInt l) /\ read c s hi = Some (PInt h) /\ w = PInt z
+                  /\ cast_int v = Returns (PInt z) /\ int_range_spec z (Some l) (Some h) mask = true.
+Proof. exact dyn_range_in_bounds_lemma. Qed.
+Print Assumptions dyn_range_in_bounds.
+
+Theorem validate_s_is_validate_elsewhere :
+  forall E c s d v, (forall lo hi m, d <> DRangeDyn lo hi m) -> validate_s E c s d v = validate E d v.
+Proof. exact validate_s_static. Qed.
+Print Assumptions validate_s_is_validate_elsewhere.
+
+(* setattr_validate_property (ctraits.c:2767): Property(<trait>) validates with the trait's Python validate, then the
+   setter stores the VALIDATED value; validate_sound, validate_documented_conversion, reject_no_effect,
+   no_out_of_domain_readable and law_holds_on_every_history therefore speak about DProperty as about any description *)
+Theorem property_runs_the_python_validate :
+  forall E d v, validate E (DProperty d) v = py_validate E d v.
+Proof. reflexivity. Qed.
+Print Assumptions property_runs_the_python_validate.
+
+(* the quiet routes trait_set(trait_change_notify=False, ..) / trait_setq(..) are trait_set: validation, storing and the
+   post_setattr of mapped traits (the shadow) do not depend on the notification flag *)
+Theorem quiet_route_is_trait_set :
+  forall E c s kw, step E c s (TraitSetQ, kw) = step E c s (TraitSet, kw).
+Proof. reflexivity. Qed.
+Print Assumptions quiet_route_is_trait_set.
 
 (* F18: without the hypothesis on Instance(C, allow_none=False) the statement is false *)
 Theorem validate_sound_refuted_none_instance :
@@ -160,3 +212,29 @@ Proof.
   - vm_compute. reflexivity.
   - vm_compute. reflexivity.
 Qed.
+
+Example new_shapes_nonvacuous :
+  let c := [(0, (DProperty (DTuple [DFloat; DFloat]), PNone));
+            (1, (DMap [(PStr [97], PInt 1); (PInt 1, PInt 2)], PStr [97]));
+            (2, (DVTuple [DFloat; DInt] None, PTuple [PFloat (FFin false 0); PInt 0]));
+            (3, (DCompound [DInt; DList (DTuple [DInt; DCast CTFloat]) 1 3], PInt 0))] in
+  let ops := [(Attr, [(0, PTupleSub [PInt 1; PInt 2])]); (TraitSetQ, [(1, PFloat (FFin false 1000))]);
+              (TraitSetQ, [(2, PList [PBool true; PIntSub 3])]); (TraitSetQ, [(2, PTuple [PInt (10 ^ 400); PInt 1]); (1, PStr [97])])] in
+  class_ok E0 c = true /\ post_safe c = true /\ ops_defined ops = true /\
+  validate E0 (DCompound [DInt; DList (DTuple [DInt; DCast CTFloat]) 1 3]) (PList [PTuple [PBool true; PInt 2]])
+  = Accept (PList [PTuple [PInt 1; PFloat (FFin false 2000)]]) /\
+  validate E0 (DCompound [DInt; DList (DTuple [DInt; DCast CTFloat]) 1 3]) (PList []) = Reject /\
+  map (fun p => o_out (snd p)) (model_hist E0 c [] ops) = [Ok; Ok; Ok; Raise ETraitError] /\
+  o_after (snd (nth 2 (model_hist E0 c [] ops) (((Attr, []) : op), mkObs Ok true [])))
+  = [(2, PTuple [PFloat (FFin false 1000); PInt 3]); (1000 + 1, PInt 2); (1, PFloat (FFin false 1000));
+     (1000 + 1, PInt 1); (1, PStr [97]); (0, PTuple [PFloat (FFin false 1000); PFloat (FFin false 2000)])].
+Proof. vm_compute. repeat split. Qed.
+
+Example dynamic_range_nonvacuous :
+  let c := [(0, (DRangeDyn 2 3 1, PInt 0)); (2, (DInt, PInt 0)); (3, (DInt, PInt 0))] in
+  let ops := [(Attr, [(3, PInt 5)]); (Attr, [(0, PInt 5)]); (Attr, [(0, PInt 0)]); (TraitSetQ, [(2, PInt (-3))]);
+              (Attr, [(0, PFloat (FFin false 2500))]); (Attr, [(0, PStr [51])]); (Ctor, [(3, PInt 1); (0, PInt 1)])] in
+  class_ok E0 c = true /\ post_safe c = true /\ ops_defined ops = true /\
+  map (fun p => o_out (snd p)) (model_hist E0 c [] ops) = [Ok; Ok; Raise ETraitError; Ok; Ok; Raise ETraitError; Ok] /\
+  get (o_after (snd (nth 4 (model_hist E0 c [] ops) (((Attr, []) : op), mkObs Ok true [])))) 0 = Some (PInt 2).
+Proof. vm_compute. repeat split. Qed.
